@@ -74,7 +74,11 @@ def run(case):
     shape = tuple(case["shape"])
     nd = len(shape)
     w = make_wcs(case["order"], shape, case["crpix_seed"])
-    data = C.payload(shape, 0)
+    # source data of the usual dtypes (the payload is integer-valued): the result must hold the values, and no value
+    # (NaN) without coverage, whatever the source dtype
+    dtype = ["float64", "float64", "int64", "int16", "float32"][case["crpix_seed"] % 5]
+    data = C.payload(shape, 0).astype(dtype)
+    tags.append(f"dtype={dtype}")
     cube = NDCube(data.copy(), wcs=w, unit=u.ct, meta={"origin": "c20"})
     cube.global_coords.add("g", "custom:g", 2 * u.kg)
     # ---- target
